@@ -137,8 +137,15 @@ func c13GenChunk(r *rand.Rand, withNext bool) *schema.EntryChunk {
 	e := &schema.EntryChunk{}
 	n := []int{0, 1, 2, 5, 50}[r.Intn(5)]
 	for k := 0; k < n; k++ {
-		code := []uint64{multihash.SHA2_256, multihash.SHA2_512, multihash.IDENTITY, multihash.SHA1, multihash.SHA3_256, multihash.DBL_SHA2_256}[r.Intn(6)]
-		mh, err := multihash.Sum(rbytes(r, r.Intn(40)), code, -1)
+		// incl. functions whose code needs a multi-byte varint (blake2b-256 0xb220, md5 0xd5) and digests
+		// longer than 127 bytes (identity), whose length needs one
+		code := []uint64{multihash.SHA2_256, multihash.SHA2_512, multihash.IDENTITY, multihash.SHA1, multihash.SHA3_256, multihash.DBL_SHA2_256,
+			multihash.BLAKE2B_MIN + 31, multihash.MD5, multihash.KECCAK_256, multihash.BLAKE3, multihash.IDENTITY}[r.Intn(11)]
+		dlen := r.Intn(40)
+		if code == multihash.IDENTITY && r.Intn(2) == 0 {
+			dlen = 128 + r.Intn(200)
+		}
+		mh, err := multihash.Sum(rbytes(r, dlen), code, -1)
 		if err != nil {
 			continue
 		}
